@@ -128,6 +128,7 @@ def model_of_trainer(ot):
 
 
 N_PREFIXED = [0]
+n_reordered = [0]
 n_counted_only = [0]
 n_counted_by_generator = [0]
 
@@ -193,7 +194,11 @@ def main(pid, tier, seed):
         sample = rng.sample(models, min(len(models), 260 if tier == 'quick' else 1500))
         for k, m in enumerate(sample):
             d = os.path.join(work, 'm%d' % k)
-            omen.write_model(d, m)
+            # the models that are not stepped call by call below are written with their lines sorted by level / reversed
+            n_step = 60 if tier == 'quick' else 600
+            order = None if k < n_step else [None, 'by_level', 'reversed'][k % 3]
+            n_reordered[0] += order is not None
+            omen.write_model(d, m, order=order)
             hs = ['fresh', 'shared_shuffled'] if tier == 'quick' else ['fresh', 'shared_shuffled', 'twice']
             tr, tid = level_traces(tid, d, list(range(0, maxlv + 2)), hs, rng, meta, {'kind': 'model-checked model', 'model': m})
             traces += tr
@@ -208,7 +213,9 @@ def main(pid, tier, seed):
             b = [None, None, None, 'ln10', 'ip10', 'ln0'][k % 6]
             m = omen.random_model(rng, boundary=b)
             d = os.path.join(work, 'r%d' % k)
-            omen.write_model(d, m)
+            order = [None, 'by_level', 'reversed'][k % 3]
+            n_reordered[0] += order is not None
+            omen.write_model(d, m, order=order)
             levels = list(range(0, omen.max_useful_level(m) + 1))
             if b in ('ln10', 'ip10'):
                 levels = [10, 11, 12, 20]
@@ -466,7 +473,7 @@ def main(pid, tier, seed):
     nontriv = [t for t in traces if (t['kind'] == 'level' and len(t['ev']) > 1) or t['kind'] in ('agree', 'keyspace')]
     distinct = len({json.dumps({k: v for k, v in t.items() if k != 'tid'}, sort_keys=True) for t in nontriv})
     s = nontriv[min(5, len(nontriv) - 1)] if nontriv else traces[0]
-    cov = {'smoothing': smoothing, 'trainings_fed_in_prefixcount_form': N_PREFIXED[0], 'levels_too_large_to_drain_whose_keyspace_the_specification_still_counted': n_counted_only[0], 'levels_whose_training_passwords_were_counted_in_the_generator_output': n_counted_by_generator[0], 'states': mc['states'], 'transitions': mc['transitions'],
+    cov = {'smoothing': smoothing, 'models_written_with_lines_sorted_by_level_or_reversed': n_reordered[0], 'trainings_fed_in_prefixcount_form': N_PREFIXED[0], 'levels_too_large_to_drain_whose_keyspace_the_specification_still_counted': n_counted_only[0], 'levels_whose_training_passwords_were_counted_in_the_generator_output': n_counted_by_generator[0], 'states': mc['states'], 'transitions': mc['transitions'],
            'traces_validated_against_impl': len(traces),
            'samples': [{'meta': {k: v for k, v in meta[s['tid']].items() if k != 'model'}, 'trace': core.short(s, 700)}],
            'model_checking': mc, 'evaluations': len(traces), 'distinct_nontrivial': distinct,
